@@ -1,4 +1,5 @@
 import MLPE.Props.C04
+import MLPE.Proofs.PlainSol
 
 /-!
 # C03 — a node starts only after its inputs are final and gets exactly their values
@@ -10,6 +11,11 @@ General facts of the engine model (every program, every state):
 * the keyword arguments are exactly the stored results of the sources, one per declared parameter name
   (`C03_kwargs_are_stored_results`), and the input node gets the caller's `input_kwargs`
   (`C03_input_node_gets_callers_kwargs`).
+**Plain pipelines, all schedules (theorems at the end of the file)**: whenever a node body is being / has been
+invoked in a pending run, its arguments are exactly the dataflow values of its declared sources under the declared
+names (`kwFrom`), all of which exist, and no argument is a failure object or a `Recurrent` marker
+(`C03_plain_invocation_arguments`, `C03_plain_no_failure_objects`).  A consumer is never called with an exception
+object stored by a one-of scope: it fails with that error instead (`C03_exception_value_fails_consumer`, all programs).
 That the stored results are the *final* values of the dataflow semantics (never rewritten in plain pipelines,
 superseded only through `hide` in recurrent ones) is `C01`'s invariant; the shapes where the real engine
 violates this (exception object through a switch inside a one-of candidate; `None` for a hidden result read
@@ -58,5 +64,71 @@ example :
     let d : DagRef := { source := 0, dest := some 1, nodes := [0, 1] }
     ready P init d 1 = false ∧ ready P (init.setRes 0 (.str "x")) d 1 = true := by
   decide
+
+/-- a source whose stored result is an exception object (kept as a value inside a one-of scope) makes the consumer
+fail with that exception: it is never passed on as an argument (all programs, all states) -/
+theorem C03_exception_value_fails_consumer (kw : Kwargs) (k : String) (e : Exc) :
+    kwPut kw k (.exc e) = .err e := rfl
+
+theorem C03_no_exception_object_in_kwargs (kw kw' : Kwargs) (k : String) (v : Val) (h : kwPut kw k v = .ok kw') :
+    v.isExc = false := by
+  cases v <;> simp [kwPut] at h <;> rfl
+
+/-- **C03 (plain pipelines, all schedules)**: in every state of a pending run, a node task that is executing its body
+(attempt `k`, arguments `kw`) was given exactly the dataflow values of its sources, all of which exist; it is the
+node's first and only invocation -/
+theorem C03_plain_invocation_arguments (P : Program) (d : DagRef) (val : Node → Option Val) (hp : PlainP P d)
+    (hsol : Solution P d val) (s : St) (h : Live P s) (hpending : s.outcome = none) (t : Nat) (tk : Task)
+    (n : Node) (k : Nat) (kw : Kwargs) (inv : Nat) (ht : s.tasks[t]? = some tk)
+    (hf : tk.frames = [.node d n false (.body k kw inv)]) (hname : tk.name = .node n) :
+    kw = kwFrom P val n ∧ (∀ p ∈ P.g.preds n, (val p).isSome = true) ∧ inv = 0 ∧ 1 ≤ k ∧ k ≤ (P.cfg n).attemptsEff := by
+  have hinv : PInv P d val s := pinv_live hp h hpending
+  obtain ⟨ctk, hc0, hcok⟩ := hinv.caller
+  have key : ∀ (a : Att P val n k kw inv), kw = kwFrom P val n ∧ (∀ p ∈ P.g.preds n, (val p).isSome = true) ∧
+      inv = 0 ∧ 1 ≤ k ∧ k ≤ (P.cfg n).attemptsEff := by
+    intro a
+    refine ⟨a.kw_eq, ?_, a.inv0, a.kpos, a.kle⟩
+    have := a.preds
+    rw [List.all_eq_true] at this
+    exact this
+  rcases hinv.rest with ⟨h1, _⟩ | ⟨L, hl, ⟨mtk, hm1, hmok⟩, hnodes, _⟩
+  · have hlt := getElem?_lt ht
+    have : t = 0 := by omega
+    subst this; rw [hc0] at ht; cases ht
+    cases hcok <;> simp at hf
+  · by_cases ht0 : t = 0
+    · subst ht0; rw [hc0] at ht; cases ht
+      cases hcok <;> simp at hf
+    · by_cases ht1 : t = 1
+      · subst ht1; rw [hm1] at ht; cases ht
+        cases hmok <;> simp at hf
+      · have hlt := getElem?_lt ht
+        obtain ⟨i, rfl⟩ : ∃ i, t = 2 + i := ⟨t - 2, by omega⟩
+        obtain ⟨tk0, htk0, hok⟩ := hnodes i (by omega)
+        rw [htk0] at ht; cases ht
+        cases hok with
+        | inBody k' kw' inv' _ _ h3 =>
+          simp only [List.cons.injEq, Frame.node.injEq, NodePc.body.injEq, and_true, true_and,
+            TaskName.node.injEq] at hf hname
+          obtain ⟨_, hk, hkw, hi⟩ := hf
+          subst hk hkw hi hname
+          exact key (h3 hsol)
+        | bodyDone k' kw' inv' _ _ h3 =>
+          simp only [List.cons.injEq, Frame.node.injEq, NodePc.body.injEq, and_true, true_and,
+            TaskName.node.injEq] at hf hname
+          obtain ⟨_, hk, hkw, hi⟩ := hf
+          subst hk hkw hi hname
+          exact key (h3 hsol)
+        | fresh => simp at hf
+        | sleeping => simp at hf
+        | slept => simp at hf
+        | doneOk => simp at hf
+        | doneExc => simp at hf
+
+/-- no argument of a node of a plain pipeline is a failure object or a `Recurrent` marker -/
+theorem C03_plain_no_failure_objects (P : Program) (d : DagRef) (val : Node → Option Val) (hp : PlainP P d)
+    (s : St) (h : Live P s) (hpending : s.outcome = none) (n : Node) (v : Val)
+    (hr : s.res n = some v) : v.isRecur = false ∧ v.isExc = false :=
+  (pinv_live (val := val) hp h hpending).noRecRes n v hr
 
 end MLPE.Eng
